@@ -146,6 +146,14 @@ class World:
         elif how == 'complex':
             cv = val * (1 + 1j) if fmt[1] <= 40 else val
             z = F(cv, fmt[0], fmt[1], fmt[2], **kw)
+            check_object(z, 'construct/complex')
+            if fmt[1] <= 40:
+                z2 = z.deepcopy()
+                z2(val)                      # a real value written over a complex one
+                check_object(z2, 'construct/complex-then-real-write')
+                z3 = F(val, fmt[0], fmt[1], fmt[2], **kw)
+                z3(cv)                       # and a complex value written over a real one
+                check_object(z3, 'construct/real-then-complex-write')
         elif how == 'scaled':
             z = F(val, fmt[0], fmt[1], fmt[2], scale=2, bias=0.5, **kw) if fmt[1] <= 30 else F(val, fmt[0], fmt[1], fmt[2], **kw)
         else:
